@@ -3,6 +3,8 @@
 package torrent
 
 import (
+	"net/http"
+	"net/http/httptest"
 	"sort"
 
 	"go.etcd.io/bbolt"
@@ -71,4 +73,13 @@ func (t *Torrent) VerifC14HasBitfield() bool {
 	t.torrent.mBitfield.RLock()
 	defer t.torrent.mBitfield.RUnlock()
 	return t.torrent.bitfield != nil
+}
+
+// VerifC14MoveIn runs the handler that receives a torrent moved from another session (the target side of
+// Torrent.Move) on the given request, without an RPC server. Returns the HTTP status and body.
+func (s *Session) VerifC14MoveIn(req *http.Request) (int, string) {
+	h := &rpcHandler{session: s}
+	rec := httptest.NewRecorder()
+	h.handleMoveTorrent(rec, req)
+	return rec.Code, rec.Body.String()
 }
